@@ -39,13 +39,13 @@ T = {
          'Decides: each partitioner discriminates barrier/measurement/reset before grouping (five known findings); QuickPartitioner puts every operation in exactly one bin and only original points reach the output; a bounding argument passed by a caller is honoured by the callee; a bin that must wait for another inherits what that one waits for; every ordering event of the sweep (operation added to a bin, barrier queued) comes with a blocking sweep over all active bins in the same iteration; iterators that activate pending qudits drain all due entries; ExtendBlockSizePass and QuickPartitioner re-wrap a block with the operation\'s parameters.',
          'Block width bounds and order preservation on concrete circuits are algorithmic and NOT decided (only the transitivity co-update and the presence of the blocking sweeps are).'),
  'C09': ('static analysis: effect pairing in the forward passes (PAIR), index-space typing (IXT), data-flow of the executable list (FLOW), eq/hash (HASH), aligned lists (ALIGN), even-parity of tentative swaps (UNDO), field completeness of PassData.become (FIELDS)',
-         'Decides: every change of pi is mirrored by an emitted swap (and vice versa) on every path; emitted locations are physical; operations are emitted only if _can_exe held; mapping writes are well typed and placed after the forward pass; CouplingGraph hash is order independent; the permutation-aware passes enumerate their permutation tables in aligned order; swap scoring takes its tentative swap back on every exit; every swap the routers emit names the circuit\'s radix (SWAPRADIX); list-based worklist searches filter successors against what they have seen (VISITED).',
+         'Decides: every change of pi is mirrored by an emitted swap (and vice versa) on every path; emitted locations are physical; operations are emitted only if _can_exe held; mapping writes are well typed and placed after the forward pass; CouplingGraph hash is order independent; the permutation-aware passes enumerate their permutation tables in aligned order; swap scoring takes its tentative swap back on every exit; every swap the routers emit names the circuit\'s radix (SWAPRADIX); list-based worklist searches filter successors against what they have seen (VISITED); no gate class whose constructor fixes the radixes to 2 goes into a radix-generic circuit of a mapping pass (QUBITGATE); every placement pass tests connectivity of what it places (PLACECONN).',
          'Equality of output and input under the mappings, termination of the uphill escape and connectivity of placements are NOT decided.'),
  'C10': ('static analysis: guarded accept over all numerical passes (GA), radix belief contradiction (RADIX), rule-template protocol (TEMPLATE), effect restriction (EFF), alternative-spelling agreement (ALTSPELL), ordered-complement slices (STABLEMOVE), operation-parameter flow (PARAMFLOW), enumeration index identity (ENUMID), adjoint-spelling agreement (ADJOINT), unclipped inverse sine/cosine (NANDOM), stored-option liveness (OPTLIVE), directional index shift (SHIFTDIR), flag x target guard grid (GRID), unitary diagonalisers (EIGUNIT)',
          'Decides: every numerical pass commits a candidate only under cost < threshold linked to that candidate and the pass target; qubit-only constructions are not fed radix-dependent gates; rule passes drop their source gate, introduce the advertised target and replace every collected point; removal passes only pop; the two spellings of a rotation receive the same angle; moving the multiplexor target keeps the select order; re-wrapped blocks keep their operation\'s parameters; an enumerate() index used as an identifier is taken over the unfiltered sequence; matrices the pinned tree adjoins are not merely transposed or conjugated; no pass takes arccos/arcsin of an unclipped matrix-derived value; every constructor option a pass stores is read by something an instance can execute (two known findings: max_depth of QFAST / QPredict decomposition); two-way scans shift cycle indices only from the left; BlockConversionPass has one guard per (kind, target) pair; no eig() eigenvector matrix is used as a unitary.',
          'Algebraic correctness of rules and decompositions is arithmetic over reals and NOT decided.'),
  'C11': ('static analysis: CFG specifications of control passes (SPEC), co-update and data-flow rules for ForEachBlockPass (COUP, FLOW), capture/restore pairing (PAIR), field completeness (FIELDS), operation-parameter flow into the per-block sub-circuit (PARAMFLOW)',
-         'Decides: each control pass runs its bodies under exactly the predicate edges its specification names; ForEachBlockPass records point/op/error together from positions captured before the body ran and writes back once; rejected branches restore circuit and data; PassData.become restores every field.',
+         'Decides: each control pass runs its bodies under exactly the predicate edges its specification names; ForEachBlockPass records point/op/error together from positions captured before the body ran and writes back once; rejected branches restore circuit and data; PassData.become restores every field; the named replace filters are built over the same placement-aware connectivity as the body\'s sub-models (SAMECONN).',
          'Error-bound arithmetic being an upper bound and batch_replace compensation on concrete circuits are NOT decided.'),
  'C12': ('static analysis: container coverage of the cancel handler (COVER), path rules over cancel/forward/refuse sites (MUST), release-on-discard (LEAK), admissible refusal conditions (REFUSE), monotone id allocators (FRESH)',
          'Decides: cancel reaches every task-holding container of the worker, every role forwards it, results/awaits of cancelled work are refused, finished owners cancel unfinished children; the server declines a cancel only for unknown/cancelled/foreign tasks; mailbox ids are never reused; the worker marks a task cancelled before it drops its work, and a cancelled task\'s error is not forwarded; reports the two discard branches that leak a _tasks entry as known findings.',
@@ -70,7 +70,7 @@ T = {
          'Unitarity, derivative values outside that fragment (delegating, expm- and kron-based gates), calc_params and agreement with the binary expression backend are numerical and NOT decided.'),
  'C19': ('static analysis: returns-receiver path rule, effect restriction on the receiver circuit (EFF), arg-min selection idiom over the four multi-start siblings, in both the sort and the running-minimum spelling (ARGMIN), parameter-vector order (CURSOR), clone comparison of the UnitaryBuilder contractions (CLONE)',
          'Decides: Circuit.instantiate returns self on every path; from instantiate and every instantiater only set_params mutates the receiver; all multi-start selectors keep the candidate of least Hilbert-Schmidt cost against (circuit, target); Circuit.params is the concatenation in iteration order.',
-         'Also decided from the class hierarchy (CAPABLE): QFactor\'s capability predicate does not reject parameter-free gates that are not locally optimisable by inheritance. Everything about the native cost engine (compiled bqskitrs) is outside the source tree and NOT decided.'),
+         'Also decided from the class hierarchy (CAPABLE): QFactor\'s capability predicate does not reject parameter-free gates that are not locally optimisable by inheritance; every multi-start entry point compares the target\'s dimension with the circuit\'s (TARGETDIM). Everything about the native cost engine (compiled bqskitrs) is outside the source tree and NOT decided.'),
  'C20': ('static analysis: undirected-edge normal form for writers and probes (NF), parallel-view derivation (FIELDS), set-growing search specification (GROW), clone comparison of the UnitaryBuilder contractions (CLONE), index-domain agreement of ranged subscripts (RANGEDOM), full-range sort of the completed permutation (SORTALL), order and tautology rules of the utility layer (SETORDER, VALORD, ABSDET, ARGSCALAR)',
          'Decides only the representation invariant: edges are stored normalised, every membership probe is normalised or probes both orders, _edges/_adj/_mat are derived from one edge set, returned subgraphs are built through the constructor; the connected-subset search starts from every vertex, grows a private copy and draws candidates from the adjacency of every member; apply_left/right and their eval_ clones contract alike; a loop variable ranging over one graph\'s vertices does not index a table built over another\'s; PermutationMatrix.from_qudit_location sorts every position of the completed permutation; no ordered key is built from an unsorted set, no list indexed by key is taken from dict.values() in insertion order, no tautological |det| test, no argmax of a scalar.',
          'Shortest paths, permutation matrices and the values of contractions are algorithmic/numerical and NOT decided (of the enumeration only the growth rule is).'),
